@@ -217,6 +217,11 @@ func bedDrive(args []string) error {
 		var file []byte
 		want := []bedItem{}
 		crlf := r.Intn(4) == 0
+		type held struct {
+			ev bedEvent
+			bm []byte
+		}
+		var hs []held // MarshalText results are looked at only after all records were marshalled and written
 		write := func(b *bed.BED, keep bool) {
 			before := bedProject(b)
 			ev := bedEvent{Sid: sid, Op: "write", Rec: before, Bytes: []int{}, U8: [][]any{}, Want: []bedItem{}, Items: []bedItem{}}
@@ -232,9 +237,9 @@ func bedDrive(args []string) error {
 			if p2 || !bedEq([]bedItem{before}, []bedItem{bedProject(b)}) {
 				ev.Panic = true
 			}
-			ev.BW, ev.BM = ints(buf.Bytes()), ints(bm)
+			ev.BW = ints(buf.Bytes())
 			ev.U8 = bedU8(buf.Bytes())
-			tw.emit(ev)
+			hs = append(hs, held{ev, bm})
 			if keep {
 				line := buf.Bytes()
 				if crlf {
@@ -251,12 +256,31 @@ func bedDrive(args []string) error {
 			if i > 0 && r.Intn(10) == 0 {
 				file = append(file, '\n')
 			}
-			write(bedRecord(r, n), true)
+			b := bedRecord(r, n)
+			if sid%9 == 2 && i == nrec/2 { // a line longer than bufio's buffer / than 64 KiB
+				if n >= 4 {
+					b.Name = strings.Repeat("n\"a%me", []int{700, 6000, 12000}[(sid/9)%3])
+				} else {
+					b.Chrom = strings.Repeat("chr%", []int{1100, 9000, 17000}[(sid/9)%3])
+				}
+				if n == 12 && (sid/9)%2 == 0 {
+					b.BlockCount = 9000
+					b.BlockSizes, b.BlockStarts = make([]int, 9000), make([]int, 9000)
+					for k := range b.BlockSizes {
+						b.BlockSizes[k], b.BlockStarts[k] = r.Intn(1000), k*1000
+					}
+				}
+			}
+			write(b, true)
 		}
 		// Write must refuse field counts outside 3..12
 		bad := bedRecord(r, 12)
 		bad.N = badN[r.Intn(len(badN))]
 		write(bad, false)
+		for _, h := range hs {
+			h.ev.BM = ints(h.bm)
+			tw.emit(h.ev)
+		}
 		ev := bedEvent{Sid: sid, Op: "read", Rec: none, BW: []int{}, BM: []int{}, Bytes: ints(file), U8: bedU8(file), HasWant: true, Want: want}
 		ev.Items, ev.Panic = bedRead(file)
 		tw.emit(ev)
